@@ -173,6 +173,7 @@ def make_jnp():
     ns.meshgrid = A.meshgrid
     ns.einsum = A.einsum
     ns.argmax = A.argmax
+    ns.interp = A.interp
     ns.argmin = A.argmin
     ns.cross = A.cross
     ns.gradient = A.gradient
